@@ -13,7 +13,7 @@ func init() {
 	register(&propDef{
 		ID: "C19",
 		Info: propInfo{
-			Technique: "context-sensitive static lockset over every struct field of the library (abstract interpretation with callee inlining, CHA for interface calls)",
+			Technique:   "context-sensitive static lockset over every struct field of the library (abstract interpretation with callee inlining, CHA for interface calls)",
 			Explanation: "For every struct field of the library packages the run collects all accesses reachable from the entry points (public API, goroutine bodies, callbacks handed to foreign code, closures returned to the user), each with its mode, the locks held along the call chain, and whether the object is still private to its constructor. A field passes when it is (a) never written after publication, (b) accessed everywhere under one common lock held in write mode by every writer, or (c) listed in the protection table as construction-time configuration or a channel hand-off, whose structural side conditions are re-checked on the current source. Anything else is a violation naming both access sites and their locksets. Package-level variables must not be assigned outside init.",
 			NotDecided:  []string{"happens-before edges other than mutexes and the listed hand-offs (a correct but exotic synchronisation is reported, never silently accepted)", "races through user-supplied adapters or worker functions", "the mocks package (test helpers)", "lock identity is per (type, field), not per object"},
 			Assumptions: []string{"sync, sync/atomic and channel operations are race-free by themselves", "internal packages are not callable by users; only functions reachable from the public API are entry points"},
